@@ -8,7 +8,19 @@ BUILD = os.path.join(VERIF, "build")
 # scratch evaluations (mutation testing) redirect evidence/replays and tag their builds
 OUTDIR = os.environ.get("VERIF_OUTDIR", VERIF)
 BUILD_TAG = os.environ.get("VERIF_BUILD_TAG", "")
-GOENV = dict(os.environ, GOFLAGS="-mod=mod", GOPROXY="off", GOSUMDB="off", GOTOOLCHAIN="local")
+# Child processes get a WHITELISTED environment: nothing of the caller's CI / UPDATE_SNAPS / NO_COLOR / GOFLAGS / editor variables
+# may leak into the library under test (ciinfo alone treats about sixty variables as "running on CI").
+_KEEP = ("PATH", "HOME", "USER", "LOGNAME", "LANG", "LC_ALL", "TMPDIR", "GOPATH", "GOCACHE", "GOMODCACHE", "GOROOT", "GOTMPDIR", "XDG_CACHE_HOME")
+
+
+def clean_env(**extra):
+    env = {k: v for k, v in os.environ.items() if k in _KEEP}
+    env.update(GOFLAGS="-mod=mod", GOPROXY="off", GOSUMDB="off", GOTOOLCHAIN="local")
+    env.update(extra)
+    return env
+
+
+GOENV = clean_env()
 NCPU = os.cpu_count() or 4
 
 
@@ -154,6 +166,11 @@ def build_go(tag, instrument=False, race=False):
     instrument=True: the library sources are replaced (overlay) by yield-instrumented copies."""
     out_dir = os.path.join(BUILD, "go", tag + BUILD_TAG)
     os.makedirs(out_dir, exist_ok=True)
+    with Lock("go-" + tag + BUILD_TAG):       # two runs of the same property must not rewrite each other's binaries
+        return _build_go(tag, out_dir, instrument, race)
+
+
+def _build_go(tag, out_dir, instrument, race):
     wb = os.path.join(VERIF, "harness", "whitebox")
     repl = {}
     for f in sorted(os.listdir(wb)):
@@ -200,7 +217,7 @@ def run_impl(binp, cases, workdir, shards=None, test="^TestVerifTrace$", timeout
         with open(fin, "w") as fh:
             for c in part:
                 fh.write(json.dumps({k: v for k, v in c.items() if k != "meta"}) + "\n")
-        env = dict(os.environ, VERIF_IN=fin, VERIF_OUT=fout, TMPDIR=workdir)
+        env = clean_env(VERIF_IN=fin, VERIF_OUT=fout, TMPDIR=workdir)
         covarg = []
         if COVER:
             _cover_n[0] += 1
